@@ -1091,6 +1091,12 @@ def _exec_cli(case, ctx):
     if pos in ("xorcomp", "majcomp") and not (_plain_int(L) and
                                               1 <= int(L) <= 8):
         pos = "php"
+    if pos in ("subsetcard", "xorcomp", "majcomp", "kclique", "domset",
+               "stone") and any(_plain_int(a) and int(a) > 8
+                                for a in case["args"]):
+        # (formulas whose size is exponential in a degree: the dense
+        # 24 x 24 graphs of the 'regular' workload would need gigabytes)
+        pos = {"simple": "kcolor", "bipartite": "php", "dag": "peb"}[gtype]
     fam = {"kcolor": ["kcolor", "1"], "iso": ["iso"],
            "iso2": ["iso", "complete", "3", "-e"], "kclique": ["kclique", "2"],
            "domset": ["domset", "1"], "php": ["php"],
